@@ -214,7 +214,13 @@ func (m *Module) readyToStart() uint8 {
 	}
 
 	// check if valid state for starting
-	if m.Status() != StatusOffline {
+	status := m.Status()
+	if status < StatusOffline {
+		// A wanted module that was never (successfully) prepared cannot be
+		// started; report it as blocked so that the pass does not claim success.
+		return statusWaiting
+	}
+	if status != StatusOffline {
 		return statusNothingToDo
 	}
 
